@@ -292,6 +292,8 @@ func (session *ServerCommandSession) handleAnnounce(requestCtx nazahttp.HttpReqM
 	session.pubSession.InitWithSdp(sdpCtx)
 
 	if err = session.observer.OnNewRtspPubSession(session.pubSession); err != nil {
+		// 上层拒绝了这个推流请求，它没有被加入过，连接关闭时不应该再通知上层它的离开
+		session.pubSession = nil
 		return err
 	}
 
@@ -333,6 +335,8 @@ func (session *ServerCommandSession) handleDescribe(requestCtx nazahttp.HttpReqM
 	ok, rawSdp := session.observer.OnNewRtspSubSessionDescribe(session.subSession)
 	if !ok {
 		Log.Warnf("[%s] force close subSession.", session.uniqueKey)
+		// 上层拒绝了这个拉流请求，它没有被加入过，连接关闭时不应该再通知上层它的离开
+		session.subSession = nil
 		return base.ErrRtspClosedByObserver
 	}
 
